@@ -33,6 +33,21 @@ HIST_ASSUME = ["all events of one vBucket are fed by one goroutine at a time (go
                "Layer-A fakes of couchbase.Client / metadata.Metadata / models.Consumer are the trusted base; the fake store writes per vBucket like the Couchbase backend"]
 
 CHECKS = {
+    "C15": dict(
+        level="fault_enumeration",
+        rule="every case runs the real dcp.Start() (VerifNewDcp hook, interface-level fakes) in a child process: generated bucket size, group shape "
+             "and per-vBucket checkpoint/high-seqno relation {no document, below, equal, above}, auto-reset earliest/latest, and one fault class "
+             "{checkpoint above high seqno, Metadata.Load error, seqno query error, failover-log error on a subset (latest reset), OpenStream "
+             "error on a subset, unknown membership type, unknown metadata type, unknown leader-election type, re-open failing 5 times after a "
+             "transient end, several at once} or none (control group). Oracle: fault => the process terminates abnormally with the library's "
+             "error before signalling readiness, nothing delivered, no stream ever requested from a seqno beyond the server's; control => ready, "
+             "every assigned vBucket requested, events delivered, Close stops it. A dying control case is reported as exit 2 (harness / unrelated "
+             "regression), never as a violation. non-trivial = a fault case with >= 2 assigned vBuckets or a fault on a strict subset",
+        assumptions=["Layer-A fakes are the trusted base; the Couchbase-backend 'checkpoint cannot be loaded' path is exercised in C20 on the simulated node",
+                     "bounded retries on re-open use the library's hard-coded 1 s sleep (one class, few cases)"],
+        units=[rapid("TestC15_FailFast", 1, 1, 4, 16)],
+        min_share=dict(any={"control_group_started": ["cases", 0.08]}),
+    ),
     "C19": dict(
         level="fault_enumeration",
         rule="every case runs the real couchbase.NewHealthCheck (interval 10 ms) in a child process with a scripted Ping: ALL 32 success/failure "
